@@ -1,7 +1,7 @@
 /* Proof units for src/lib/zck.c */
 #include "spec/verif_zck.h"
 #include "spec/ghost.h"
-size_t g_k1, g_k2;
+GHOST_DEFS
 #include "contracts/compint.h"
 #include "contracts/hash.h"
 #include "contracts/zck.h"
